@@ -27,6 +27,9 @@ Proof.
 Qed.
 Lemma psess_out i x s : outof (psess i x s) = [].  Proof. reflexivity. Qed.
 
+(* the whole store is untouched *)
+Definition qv_all (s' s : st) : Prop := store s' = store s.
+
 (* operations that leave the view alone *)
 Definition vframe {A} (i : sid) (m : M A) : Prop := forall s, qv i (stof (m s)) = qv i s.
 Lemma vframe_bind {A B} i (m : M A) (f : A -> M B) : vframe i m -> (forall a, vframe i (f a)) -> vframe i (bind m f).
@@ -151,6 +154,8 @@ Variable cfg : config.
    itself emits nothing *)
 Lemma poll_attempt_spec me tout i k t s : has i s = true ->
   outof (poll_attempt cfg me tout i k t s) = [] /\
+  ((forall l, valof (poll_attempt cfg me tout i k t s) <> PGot l) ->
+     s_taken (cur i (stof (poll_attempt cfg me tout i k t s))) = s_taken (cur i s) /\ s_q (cur i (stof (poll_attempt cfg me tout i k t s))) = s_q (cur i s)) /\
   forall l, valof (poll_attempt cfg me tout i k t s) = PGot l ->
   has i (stof (poll_attempt cfg me tout i k t s)) = true /\
   s_taken (cur i (stof (poll_attempt cfg me tout i k t s))) = s_taken (cur i s) ++ smids l /\
@@ -158,9 +163,16 @@ Lemma poll_attempt_spec me tout i k t s : has i s = true ->
 Proof.
   intros H. unfold poll_attempt. rewrite bind_gsess_eq.
   destruct (if tout && q_timeout_wins (c_quirks cfg) then [] else s_q (cur i s)) as [|x r] eqn:Q.
-  - destruct tout.
-    + unfold upd. rewrite (bind_run _ _ s _ _ _ (eq_refl : bind (gsess i) (fun x => psess i (w_getters (nrem me (s_getters x)) x)) s = (tt, _, []))). cbn. split; [reflexivity | discriminate].
-    + unfold upd. rewrite (bind_run _ _ s _ _ _ (eq_refl : bind (gsess i) (fun x => psess i (w_getters (nrem me (s_getters x) ++ [me]) x)) s = (tt, _, []))). cbn. split; [reflexivity | discriminate].
+  - assert (U : forall g, qv i (stof (upd i (fun x => w_getters (g x) x) s)) = qv i s).
+    { intros g. unfold upd. rewrite bind_gsess_eq. rewrite psess_qv by exact H. unfold qv. rewrite H. reflexivity. }
+    destruct tout.
+    + unfold upd. rewrite (bind_run _ _ s _ _ _ (eq_refl : bind (gsess i) (fun x => psess i (w_getters (nrem me (s_getters x)) x)) s = (tt, _, []))). cbn [fst snd ret app valof stof outof].
+      split; [reflexivity|]. split; [|discriminate]. intros _. specialize (U (fun x => nrem me (s_getters x))). unfold upd, qv in U. rewrite bind_gsess_eq in U. injection U as _ U1 U2. split; assumption.
+    + unfold upd. rewrite (bind_run _ _ s _ _ _ (eq_refl : bind (gsess i) (fun x => psess i (w_getters (nrem me (s_getters x) ++ [me]) x)) s = (tt, _, []))).
+      set (s1 := snd (fst (bind (gsess i) (fun x => psess i (w_getters (nrem me (s_getters x) ++ [me]) x)) s))).
+      rewrite (bind_run _ _ s1 tt _ [] eq_refl). cbn [fst snd ret app valof stof outof].
+      split; [reflexivity|]. split; [|discriminate]. intros _. specialize (U (fun x => nrem me (s_getters x) ++ [me])). unfold upd, qv in U. rewrite bind_gsess_eq in U.
+      fold s1 in U. unfold stof in U. cbn in U. injection U as _ U1 U2. split; assumption.
   - assert (QQ : s_q (cur i s) = x :: r) by (destruct (tout && q_timeout_wins (c_quirks cfg)); [discriminate | exact Q]).
     rewrite (bind_run _ _ _ _ _ _ (psess_run _ _ _)).
     pose proof (psess_qv i (w_taken (s_taken (cur i s) ++ mids_of [x]) (w_getters (nrem me (s_getters (cur i s))) (w_q r (cur i s)))) s H) as P.
@@ -175,10 +187,10 @@ Proof.
     destruct x as [p|].
     + destruct (drain_spec (S (length r)) i [p] s2 H2) as (d & D1 & D2 & D3 & D4 & D5). unfold valof, stof, outof in *.
       destruct (drain (S (length r)) i [p] s2) as [[res s3] o3] eqn:E3. cbn [fst snd] in *. rewrite (bind_run _ _ _ _ _ _ E3). cbn [fst snd ret app]. subst o3.
-      split; [reflexivity|]. intros l X. injection X as <-. subst res. split; [exact D2|]. split.
+      split; [reflexivity|]. split; [intros N; exfalso; exact (N _ eq_refl)|]. intros l X. injection X as <-. subst res. split; [exact D2|]. split.
       * rewrite D3, T2, <- app_assoc. f_equal. cbn [app smids flat_map]. destruct p; reflexivity.
       * rewrite QQ, mids_of_cons. rewrite Q2 in D4. rewrite D4. cbn [app smids flat_map]. rewrite app_assoc. f_equal. destruct p; reflexivity.
-    + unfold ret, valof, stof, outof. cbn [fst snd app]. split; [reflexivity|]. intros l X. injection X as <-. cbn [smids flat_map app]. rewrite app_nil_r. split; [exact H2|]. split; [rewrite T2; cbn; rewrite app_nil_r; reflexivity|].
+    + unfold ret, valof, stof, outof. cbn [fst snd app]. split; [reflexivity|]. split; [intros N; exfalso; exact (N _ eq_refl)|]. intros l X. injection X as <-. cbn [smids flat_map app]. rewrite app_nil_r. split; [exact H2|]. split; [rewrite T2; cbn; rewrite app_nil_r; reflexivity|].
       rewrite QQ, mids_of_cons, Q2. reflexivity.
 Qed.
 
@@ -236,7 +248,7 @@ Theorem poll_response_is_taken me e i r t s : t_task e = TPoll i (PKGet r) t -> 
   mids_of (s_q (cur i s)) = smids l ++ mids_of (s_q (cur i (stof (run_task cfg me e s)))).
 Proof.
   intros K H l. unfold run_task. rewrite K.
-  destruct (poll_attempt_spec me (t_tout e) i (PKGet r) t s H) as [O1 SP].
+  destruct (poll_attempt_spec me (t_tout e) i (PKGet r) t s H) as (O1 & _ & SP).
   destruct (poll_attempt cfg me (t_tout e) i (PKGet r) t s) as [[p s1] o1] eqn:E1. unfold outof, valof, stof in O1, SP. cbn [fst snd] in O1, SP. subst o1.
   rewrite (bind_run _ _ _ _ _ _ E1). cbn [app].
   destruct p as [| |l'].
@@ -259,4 +271,165 @@ Proof.
     intros [X|[]]. injection X as <-.
     assert (V : qv i s3 = qv i s1) by congruence. unfold qv in V. injection V as _ V1 V2. rewrite V2, V1. split; assumption.
 Qed.
+
+(* ---- the WebSocket writer ---- *)
+Definition wsent (c : cid) (l : list out) : list spkt :=
+  flat_map (fun o => match o with OWsSend c' (WPk p) => if N.eqb c c' then [p] else [] | _ => [] end) l.
+Lemma wsent_app c a b : wsent c (a ++ b) = wsent c a ++ wsent c b.  Proof. unfold wsent. apply flat_map_app. Qed.
+
+Lemma ws_send_all_spec c l : forall s,
+  qv_all (stof (ws_send_all c l s)) s /\
+  exists rest, wsent c (outof (ws_send_all c l s)) ++ rest = l /\ (valof (ws_send_all c l s) = true -> rest = []).
+Proof.
+  induction l as [|p r IH]; intros s; cbn [ws_send_all]; [split; [reflexivity | exists []; split; [reflexivity | auto]]|].
+  unfold gconn. rewrite (bind_run _ _ s _ s [] eq_refl).
+  match goal with |- context [if ?X then _ else _] => destruct X end.
+  - cbn. split; [reflexivity|]. exists (p :: r). split; [reflexivity | discriminate].
+  - rewrite (bind_run _ _ s tt s [OWsSend c (WPk p)] eq_refl).
+    specialize (IH s). destruct (ws_send_all c r s) as [[b s2] o2]. unfold stof, outof, valof in *. cbn [fst snd app] in *.
+    destruct IH as [E (rest & T & V)]. split; [exact E|]. exists rest. split; [|exact V].
+    change (wsent c (OWsSend c (WPk p) :: o2)) with ((if N.eqb c c then [p] else []) ++ wsent c o2). rewrite N.eqb_refl. cbn [app]. rewrite T. reflexivity.
+Qed.
+
+
+Definition nosend (o : out) : Prop := match o with OWsSend _ (WPk _) => False | _ => True end.
+Lemma nosend_wsent c l : Forall nosend l -> wsent c l = [].
+Proof. induction 1 as [|o l H _ IH]; [reflexivity|]. unfold wsent in *. cbn. rewrite IH. destruct o as [| |c' [p|]| | | | | | |]; cbn in *; try reflexivity. contradiction. Qed.
+Lemma ns_raw {A} (m : M A) : (forall s, ServerReasons.outof (m s) = []) -> emits nosend m.
+Proof. intros H s. rewrite H. constructor. Qed.
+Lemma ns_wake t : emits nosend (wake t).  Proof. apply emits_modst. Qed.
+Lemma ns_wake_all l : emits nosend (wake_all l).
+Proof. induction l as [|t0 r0 IH]; cbn [wake_all]; [apply emits_ret | apply emits_bind; [apply ns_wake | intros; exact IH]]. Qed.
+Lemma ns_finish me : emits nosend (finish me).
+Proof. unfold finish. apply emits_bind; [apply emits_getst|]. intros s0. apply emits_bind; [apply emits_modst | intros; apply ns_wake_all]. Qed.
+Lemma ns_ws_close c : emits nosend (ws_close c).
+Proof.
+  unfold ws_close. apply emits_bind; [apply ns_raw; reflexivity|]. intros k. destruct (k_sclosed k); [apply emits_ret|].
+  apply emits_bind; [apply emits_modst|]. intros ?. apply emits_bind; [apply emits_emit; exact I|]. intros ?. destruct (k_waiter k); [apply ns_wake | apply emits_ret].
+Qed.
+Lemma vframe_ws_close i c : vframe i (ws_close c).
+Proof.
+  unfold ws_close. apply vframe_bind; [apply vframe_store; reflexivity|]. intros k. destruct (k_sclosed k); [apply vframe_ret|].
+  apply vframe_bind; [apply vframe_store; reflexivity|]. intros ?. apply vframe_bind; [apply vframe_store; reflexivity|]. intros ?.
+  destruct (k_waiter k); [apply vframe_wake | apply vframe_ret].
+Qed.
+Lemma writer_exit_spec me c i s : qv i (stof (writer_exit me c s)) = qv i s /\ wsent c (outof (writer_exit me c s)) = [].
+Proof.
+  split.
+  - apply (vframe_bind i (ws_close c) (fun _ => finish me)); [apply vframe_ws_close | intros; apply vframe_finish].
+  - apply nosend_wsent. apply (emits_bind nosend (ws_close c) (fun _ => finish me)); [apply ns_ws_close | intros; apply ns_finish].
+Qed.
+
+(* poll_start = a fresh timer, then one attempt *)
+Lemma poll_start_spec me i k s : has i s = true ->
+  outof (poll_start cfg me i k s) = [] /\
+  ((forall l, valof (poll_start cfg me i k s) <> PGot l) ->
+     s_taken (cur i (stof (poll_start cfg me i k s))) = s_taken (cur i s) /\ s_q (cur i (stof (poll_start cfg me i k s))) = s_q (cur i s)) /\
+  forall l, valof (poll_start cfg me i k s) = PGot l ->
+  has i (stof (poll_start cfg me i k s)) = true /\
+  s_taken (cur i (stof (poll_start cfg me i k s))) = s_taken (cur i s) ++ smids l /\
+  mids_of (s_q (cur i s)) = smids l ++ mids_of (s_q (cur i (stof (poll_start cfg me i k s)))).
+Proof.
+  intros H. unfold poll_start, new_timer. rewrite (bind_run _ _ s _ (set_tseq (N.succ (tseq s)) s) [] eq_refl).
+  set (s0 := set_tseq (N.succ (tseq s)) s).
+  assert (H0 : has i s0 = true) by exact H.
+  pose proof (poll_attempt_spec me false i k (now s + (c_interval cfg + c_timeout cfg), tseq s)%Z s0 H0) as SP.
+  destruct (poll_attempt cfg me false i k _ s0) as [[p s1] o1]. unfold valof, stof, outof in *. cbn [fst snd app] in *. exact SP.
+Qed.
+
+
+Definition batch_of (p : pres) : list spkt := match p with PGot l => l | _ => [] end.
+
+(* a run of the writer: everything it takes from the queue - after the batch it starts with - is the head of the queue, in order,
+   recorded as taken; what goes out on the WebSocket, followed by what a failed send dropped, is the start batch followed by
+   what was taken *)
+Lemma writer_loop_spec fuel : forall me i c rd first s, has i s = true ->
+  exists took lost,
+    s_taken (cur i (stof (writer_loop cfg fuel me i c rd first s))) = s_taken (cur i s) ++ smids took /\
+    mids_of (s_q (cur i s)) = smids took ++ mids_of (s_q (cur i (stof (writer_loop cfg fuel me i c rd first s)))) /\
+    wsent c (outof (writer_loop cfg fuel me i c rd first s)) ++ lost = batch_of first ++ took.
+Proof.
+  assert (EXIT : forall me i c s l0, exists took lost,
+            s_taken (cur i (stof (writer_exit me c s))) = s_taken (cur i s) ++ smids took /\
+            mids_of (s_q (cur i s)) = smids took ++ mids_of (s_q (cur i (stof (writer_exit me c s)))) /\
+            wsent c (outof (writer_exit me c s)) ++ lost = l0 ++ took).
+  { intros me i c s l0. destruct (writer_exit_spec me c i s) as [Q W]. exists [], l0. unfold qv in Q. injection Q as _ Q1 Q2.
+    rewrite Q2, Q1, W, !app_nil_r. cbn. auto. }
+  assert (NIL : forall i s, exists took lost : list spkt,
+            s_taken (cur i s) = s_taken (cur i s) ++ smids took /\ mids_of (s_q (cur i s)) = smids took ++ mids_of (s_q (cur i s)) /\ @nil spkt ++ lost = [] ++ took)
+    by (intros; exists [], []; cbn; rewrite !app_nil_r; auto).
+  induction fuel as [|f IH]; intros me i c rd first s H;
+    (destruct first as [| |[|p l]]; cbn [writer_loop batch_of]; [apply NIL | apply EXIT | apply EXIT |]).
+  - (* out of fuel after one batch *)
+    pose proof (ws_send_all_spec c (p :: l) s) as (E & rest & T & V).
+    destruct (ws_send_all c (p :: l) s) as [[ok s1] o1] eqn:E1. unfold stof, outof, valof, qv_all in E, T, V. cbn [fst snd] in E, T, V.
+    rewrite (bind_run _ _ _ _ _ _ E1).
+    assert (C1 : cur i s1 = cur i s) by (unfold cur; rewrite E; reflexivity).
+    destruct ok; cbn [negb].
+    + specialize (V eq_refl). subst rest. rewrite app_nil_r in T. exists [], []. unfold emit, stof, outof. cbn [fst snd]. rewrite C1, ?app_nil_r, ?wsent_app, ?app_nil_r, T. cbn. rewrite ?app_nil_r. auto.
+    + destruct (writer_exit_spec me c i s1) as [Q W]. destruct (writer_exit me c s1) as [[u s2] o2]. unfold stof, outof in *. cbn [fst snd] in *.
+      unfold qv in Q. injection Q as _ Q1 Q2. exists [], rest. rewrite Q2, Q1, C1, ?wsent_app, ?W, ?app_nil_r. cbn. auto.
+  - pose proof (ws_send_all_spec c (p :: l) s) as (E & rest & T & V).
+    destruct (ws_send_all c (p :: l) s) as [[ok s1] o1] eqn:E1. unfold stof, outof, valof, qv_all in E, T, V. cbn [fst snd] in E, T, V.
+    rewrite (bind_run _ _ _ _ _ _ E1).
+    assert (C1 : cur i s1 = cur i s) by (unfold cur; rewrite E; reflexivity).
+    assert (H1 : has i s1 = true) by (unfold has in *; rewrite E; exact H).
+    destruct ok; cbn [negb].
+    + specialize (V eq_refl). subst rest. rewrite app_nil_r in T.
+      destruct (poll_start_spec me i (PKWriter c rd) s1 H1) as (O2 & SN & SG).
+      destruct (poll_start cfg me i (PKWriter c rd) s1) as [[p2 s2] o2] eqn:E2. unfold valof, stof, outof in O2, SN, SG. cbn [fst snd] in O2, SN, SG. subst o2.
+      rewrite (bind_run _ _ _ _ _ _ E2).
+      destruct p2 as [| |l2].
+      * destruct (SN ltac:(discriminate)) as [N1 N2]. cbn [writer_loop]. destruct f; cbn [writer_loop]; exists [], []; unfold ret, stof, outof; cbn [fst snd];
+          rewrite N1, N2, C1, ?app_nil_r, ?wsent_app, ?app_nil_r, T; cbn; rewrite ?app_nil_r; auto.
+      * destruct (SN ltac:(discriminate)) as [N1 N2].
+        assert (X : writer_loop cfg f me i c rd PEmpty s2 = writer_exit me c s2) by (destruct f; reflexivity). rewrite X.
+        destruct (writer_exit_spec me c i s2) as [Q W]. destruct (writer_exit me c s2) as [[u s3] o3]. unfold stof, outof in *. cbn [fst snd] in *.
+        unfold qv in Q. injection Q as _ Q1 Q2. exists [], []. rewrite Q2, Q1, N1, N2, C1, ?app_nil_r, ?wsent_app, ?app_nil_r, T, ?W. cbn. rewrite ?app_nil_r. auto.
+      * destruct (SG l2 eq_refl) as (H2 & T2 & Q2).
+        destruct (IH me i c rd (PGot l2) s2 H2) as (took & lost & A1 & A2 & A3).
+        destruct (writer_loop cfg f me i c rd (PGot l2) s2) as [[u s3] o3]. unfold stof, outof in *. cbn [fst snd batch_of] in *.
+        exists (l2 ++ took), lost. split; [rewrite A1, T2, C1, smids_app, app_assoc; reflexivity|]. split.
+        -- rewrite <- C1, Q2, A2, smids_app, app_assoc. reflexivity.
+        -- rewrite !wsent_app, T. change (wsent c []) with (@nil spkt). cbn [app]. f_equal. rewrite <- app_assoc, A3. reflexivity.
+    + destruct (writer_exit_spec me c i s1) as [Q W]. destruct (writer_exit me c s1) as [[u s2] o2]. unfold stof, outof in *. cbn [fst snd] in *.
+      unfold qv in Q. injection Q as _ Q1 Q2. exists [], rest. rewrite Q2, Q1, C1, ?wsent_app, ?W, ?app_nil_r. cbn. auto.
+Qed.
+
+
+(* C03, WebSocket side: in a step of the writer, what is put on the WebSocket - followed by what a failed send dropped - is what
+   the step took from the head of the session's queue, in order, and exactly that is recorded as taken *)
+Theorem writer_sends_what_it_takes me e i c rd s : has i s = true ->
+  (t_task e = TWriterStart i c rd \/ exists t, t_task e = TPoll i (PKWriter c rd) t) ->
+  exists took lost,
+    s_taken (cur i (stof (run_task cfg me e s))) = s_taken (cur i s) ++ smids took /\
+    mids_of (s_q (cur i s)) = smids took ++ mids_of (s_q (cur i (stof (run_task cfg me e s)))) /\
+    wsent c (outof (run_task cfg me e s)) ++ lost = took.
+Proof.
+  intros H K.
+  assert (G : forall (m : M pres), 
+     (outof (m s) = [] /\
+      ((forall l, valof (m s) <> PGot l) -> s_taken (cur i (stof (m s))) = s_taken (cur i s) /\ s_q (cur i (stof (m s))) = s_q (cur i s)) /\
+      (forall l, valof (m s) = PGot l -> has i (stof (m s)) = true /\ s_taken (cur i (stof (m s))) = s_taken (cur i s) ++ smids l /\
+                                          mids_of (s_q (cur i s)) = smids l ++ mids_of (s_q (cur i (stof (m s)))))) ->
+     exists took lost,
+       s_taken (cur i (stof (bind m (fun p => bind (gsess i) (fun ss => writer_loop cfg (S (S (length (s_q ss)))) me i c rd p)) s))) = s_taken (cur i s) ++ smids took /\
+       mids_of (s_q (cur i s)) = smids took ++ mids_of (s_q (cur i (stof (bind m (fun p => bind (gsess i) (fun ss => writer_loop cfg (S (S (length (s_q ss)))) me i c rd p)) s)))) /\
+       wsent c (outof (bind m (fun p => bind (gsess i) (fun ss => writer_loop cfg (S (S (length (s_q ss)))) me i c rd p)) s)) ++ lost = took).
+  { intros m (O1 & SN & SG). destruct (m s) as [[p s1] o1] eqn:E1. unfold valof, stof, outof in O1, SN, SG. cbn [fst snd] in O1, SN, SG. subst o1.
+    rewrite (bind_run _ _ _ _ _ _ E1). rewrite bind_gsess_eq. cbn [app].
+    destruct p as [| |l].
+    - destruct (SN ltac:(discriminate)) as [N1 N2]. cbn [writer_loop]. exists [], []. unfold ret, stof, outof. cbn. rewrite N1, N2, !app_nil_r. auto.
+    - destruct (SN ltac:(discriminate)) as [N1 N2]. cbn [writer_loop].
+      destruct (writer_exit_spec me c i s1) as [Q W]. destruct (writer_exit me c s1) as [[u s2] o2]. unfold stof, outof in *. cbn [fst snd] in *.
+      unfold qv in Q. injection Q as _ Q1 Q2. exists [], []. rewrite Q2, Q1, N1, N2, W, !app_nil_r. cbn. auto.
+    - destruct (SG l eq_refl) as (H1 & T1 & Q1).
+      destruct (writer_loop_spec (S (S (length (s_q (cur i s1))))) me i c rd (PGot l) s1 H1) as (took & lost & A1 & A2 & A3).
+      destruct (writer_loop cfg _ me i c rd (PGot l) s1) as [[u s2] o2]. unfold stof, outof in *. cbn [fst snd batch_of] in *.
+      exists (l ++ took), lost. split; [rewrite A1, T1, smids_app, app_assoc; reflexivity|]. split; [rewrite Q1, A2, smids_app, app_assoc; reflexivity | exact A3]. }
+  unfold run_task. destruct K as [K | [t K]]; rewrite K.
+  - apply G. apply poll_start_spec. exact H.
+  - apply G. apply poll_attempt_spec. exact H.
+Qed.
+
 End WithCfg.
